@@ -306,36 +306,46 @@ Definition drain (t : target) (r : N) (s : st) : st :=
   let s2 := fold_left (fun s c => send c (mknote false t r) s) lc s1 in
   fold_left (fun s c => send c (mknote true t r) s) mc s2.
 
-(* the atomic steps of unregisterProcess, in program order (node/node.go):
+(* the atomic steps of unregisterProcess, in program order (node/node.go, after commit caf4a93):
      n.processes.Delete(p.pid)
+     if p.registered.Load() { n.names.CompareAndDelete(p.name, p) }     [name released FIRST, only if it is p's entry]
      n.RouteTerminatePID(p.pid, reason)
      n.targetManager.CleanupConsumer(p.pid)                         [fix: was missing]
-     if p.registered.Load() { n.names.Delete(p.name); n.RouteTerminateProcessID(pname, reason) }
+     if p.registered.Load() { n.RouteTerminateProcessID(pname, reason) }
      for _, a := range p.aliases { n.aliases.Delete(a); n.RouteTerminateAlias(a, reason) }
      p.events.Range(... n.events.Delete(ev); n.RouteTerminateEvent(ev, reason) ...)          *)
 Inductive tstep :=
 | TDelProc (p : pid)
 | TDrain (t : target) (r : N)
 | TCleanCons (p : pid)
-| TDelName (n : atom)
+| TDelName (n : atom) (p : pid)      (* CompareAndDelete(n, p) *)
 | TDelAlias (a : N)
 | TDelEvent (e : atom).
 
 Definition term_prog_of (p : pid) (pr : proc) (r : N) : list tstep :=
-  TDelProc p :: TDrain (TPid p) r :: TCleanCons p ::
-  (match pr_name pr with Some n => [TDelName n; TDrain (TName n me) r] | None => [] end) ++
+  TDelProc p ::
+  (match pr_name pr with Some n => [TDelName n p] | None => [] end) ++
+  TDrain (TPid p) r :: TCleanCons p ::
+  (match pr_name pr with Some n => [TDrain (TName n me) r] | None => [] end) ++
   flat_map (fun a => [TDelAlias a; TDrain (TAlias me a) r]) (pr_aliases pr) ++
   flat_map (fun e => [TDelEvent e; TDrain (TEvent e me) r]) (pr_events pr).
 
 Definition term_prog (s : st) (p : pid) (r : N) : list tstep :=
   match aget pid_dec p (s_procs s) with Some pr => term_prog_of p pr r | None => [] end.
 
+(* sync.Map.CompareAndDelete(k, v): delete the entry of k iff it holds v *)
+Definition cdel (n : atom) (p : pid) (names : list (atom * pid)) : list (atom * pid) :=
+  match aget N.eq_dec n names with
+  | Some q => if pid_dec q p then adel N.eq_dec n names else names
+  | None => names
+  end.
+
 Definition tstep_exec (x : tstep) (s : st) : st :=
   match x with
   | TDelProc p => set_procs (adel pid_dec p (s_procs s)) s
   | TDrain t r => drain t r s
   | TCleanCons p => set_tm (fst (fst (tm_cleanup_consumer p (s_tm s)))) s
-  | TDelName n => set_names (adel N.eq_dec n (s_names s)) s
+  | TDelName n p => set_names (cdel n p (s_names s)) s
   | TDelAlias a => set_aliases (adel N.eq_dec a (s_aliases s)) s
   | TDelEvent e => set_events (adel N.eq_dec e (s_events s)) s
   end.
@@ -591,6 +601,35 @@ Fixpoint run_ops (ops : list op) (s : st) : st * list res :=
   match ops with
   | [] => (s, [])
   | o :: tl => let '(s1, r) := exec o s in let '(s2, rs) := run_ops tl s1 in (s2, r :: rs)
+  end.
+
+(** ** The pre-fix DeleteAlias (before commit 234e1d4), kept to state what the defect broke:
+       for i, a := range p.aliases { if a != alias { continue }
+           p.aliases[0] = p.aliases[i]; p.aliases = p.aliases[1:]; break }
+     i.e. the found element overwrites the first one, which is then dropped: the list loses its
+     FIRST element, whatever alias was deleted. *)
+Definition alias_list_delete_old (a : N) (l : list N) : list N :=
+  if memb N.eq_dec a l then tl l else l.
+Definition delete_alias_old (p : pid) (pr : proc) (a : N) (s : st) : st * res :=
+  match aget N.eq_dec a (s_aliases s) with
+  | None => (s, RErr e_alias_unknown)
+  | Some q =>
+      if pid_dec q p then
+        let s1 := set_aliases (adel N.eq_dec a (s_aliases s)) s in
+        let s2 := drain (TAlias me a) r_unreg s1 in
+        (set_proc p (mkproc (pr_parent pr) (pr_name pr) (alias_list_delete_old a (pr_aliases pr)) (pr_events pr)) s2, ROk)
+      else (s, RErr e_alias_owner)
+  end.
+Definition exec_old (o : op) (s : st) : st * res :=
+  match o with
+  | ODeleteAlias p a =>
+      match aget pid_dec p (s_procs s) with Some pr => delete_alias_old p pr a s | None => (s, RErr e_dead) end
+  | _ => exec o s
+  end.
+Fixpoint run_ops_old (ops : list op) (s : st) : st * list res :=
+  match ops with
+  | [] => (s, [])
+  | o :: tl => let '(s1, r) := exec_old o s in let '(s2, rs) := run_ops_old tl s1 in (s2, r :: rs)
   end.
 
 (** ** The specification of notifications (what C04 promises), stated from the tables only *)
